@@ -566,6 +566,39 @@ def bi_result_map(it, fn, args, path, body, blk, depth):
     raise Unsupported("Result::map on %r" % (v,))
 
 
+def bi_then_some(it, fn, args, path, body, blk, depth):
+    b = args[0]
+    if b[0] in ("b", "i"):
+        return [(path, some(args[1]) if int(b[1]) else NONE)]
+    raise Unsupported("then_some on %r" % (b,))
+
+
+def bi_ok_or_else(it, fn, args, path, body, blk, depth):
+    v = args[0]
+    if v[0] == "enum" and v[1] == OPTION:
+        if v[2] == "Some":
+            return [(path, ok(v[3][0]))]
+        res = it.call_closure(args[1], [], path, depth)
+        return [(p, err(x)) for p, x in res]
+    raise Unsupported("ok_or_else on %r" % (v,))
+
+
+def bi_result_and_then(it, fn, args, path, body, blk, depth):
+    v = args[0]
+    if v[0] == "choice":
+        out = []
+        for alt in v[2]:
+            p2 = path.fork()
+            p2.assume[v[1]] = _short(alt)
+            out.extend(bi_result_and_then(it, fn, [alt, args[1]], p2, body, blk, depth))
+        return out
+    if v[0] == "enum" and v[1] == RESULT:
+        if v[2] == "Err":
+            return [(path, v)]
+        return list(it.call_closure(args[1], [v[3][0]], path, depth))
+    raise Unsupported("Result::and_then on %r" % (v,))
+
+
 def bi_option_map(it, fn, args, path, body, blk, depth):
     v = args[0]
     if v[0] == "enum" and v[1] == OPTION:
@@ -639,5 +672,8 @@ DEFAULT_BUILTINS = {
     "std::result::Result::<T, E>::is_err": bi_is_err,
     "std::result::Result::<T, E>::map_err": bi_map_err,
     "std::result::Result::<T, E>::map": bi_result_map,
+    "std::result::Result::<T, E>::and_then": bi_result_and_then,
+    "std::option::Option::<T>::ok_or_else": bi_ok_or_else,
+    "name:then_some": lambda it, fn, args, path, body, blk, depth: bi_then_some(it, fn, args, path, body, blk, depth) if (fn.get("def") or "").startswith(("std::bool", "core::bool", "bool::")) or "bool" in (fn.get("def") or "") else None,
     "core::ops::deref::Deref::deref": lambda it, fn, a, p, b, k, d: [(p, ("ref", _peel(a[0])))],
 }
